@@ -3,9 +3,31 @@
 
    AES-GCM is abstract in the model (Section variables seal/aopen).  Here they are instantiated by
    the IDEAL AEAD over the table of (nonce, plaintext, sealed) triples that the driver computed
-   with crypto/cipher under the scenario's key: seal = table lookup, aopen accepts exactly the
-   table's (nonce, sealed) pairs.  That is the authenticity hypothesis of the theorems, so every
-   string the real GCM encoder accepts but the ideal one rejects shows up as a difference. *)
+   with crypto/cipher under the scenario's key: seal = table lookup (first match; "" when the
+   pair is not in the table, which is then reported), aopen accepts exactly the table's
+   (nonce, sealed) pairs.  That is the authenticity hypothesis of the theorems, so every string
+   the real GCM encoder accepts but the ideal one rejects shows up as a difference.
+
+   Cross-check of extraction: with ORACLE_DUMP=<file> every value the extracted model computes
+   for a case is appended to that file as numbers (before any comparison with the
+   implementation); bin/coqreplay_c28.py recomputes the same numbers inside Coq with vm_compute,
+   with the same ideal AEAD defined in Coq from the same table.  Encoding: a byte string is
+   (length, hash) with hash = fold (acc*257 + b + 1) mod 1000000007; an option is 0 | 1 value;
+   a resume is 0 invalid | 1 mismatch | 2 start | 3 length hash. *)
+
+let dump_chan = match Sys.getenv_opt "ORACLE_DUMP" with
+  | Some p when p <> "" -> Some (open_out_gen [Open_append; Open_creat] 0o644 p)
+  | _ -> None
+let dump id (nums : int list) =
+  match dump_chan with
+  | Some ch -> output_string ch (id ^ " " ^ String.concat " " (List.map string_of_int nums) ^ "\n")
+  | None -> ()
+let nh (l : n list) : int list =
+  [List.length l; List.fold_left (fun acc b -> (acc * 257 + int_of_n b + 1) mod 1000000007) 0 l]
+let n_opt o = match o with None -> [0] | Some l -> 1 :: nh l
+let n_pair o = match o with None -> [0] | Some (a, b) -> 1 :: (nh a @ nh b)
+let n_res r = match r with RInvalid -> [0] | RMismatch -> [1] | RStart -> [2] | RFrom u -> 3 :: nh u
+let n_bool b = [if b then 1 else 0]
 
 let hx l = hex_of_string (coq_to_bytes l)
 let hs s = hex_of_string s
@@ -24,7 +46,9 @@ let check (fields : (string * bool * string * string) list) : string =
     (if prop then "PROP " else "DIFF ") ^ txt
 
 let opt_bytes o = match o with Some l -> "1/" ^ hx l | None -> "0/"
+let pair_str o = match o with None -> "0/" | Some (a, b) -> "1/" ^ hx a ^ "/" ^ hx b
 let impl_opt ok b = if as_bool ok then "1/" ^ hs (as_bytes b) else "0/"
+let impl_pair ok a b = if as_bool ok then "1/" ^ hs (as_bytes a) ^ "/" ^ hs (as_bytes b) else "0/"
 
 let encoder_of_cfg (c : int) : encoder =
   match c with
@@ -40,103 +64,106 @@ let resume_str (r : resume) : string =
   match r with
   | RInvalid -> "0/" | RMismatch -> "1/" | RStart -> "2/" | RFrom u -> "3/" ^ hx u
 
-exception Seal_miss
+(* the ideal AEAD over the driver's table *)
+let ideal_aead (table : value) =
+  let tbl = List.map (fun v -> match as_list v with
+      | [n; p; s] -> (as_cbytes n, as_cbytes p, as_cbytes s)
+      | _ -> failwith "table entry") (as_list table) in
+  let miss = ref false in
+  let seal n m =
+    match List.find_opt (fun (a, b, _) -> a = n && b = m) tbl with
+    | Some (_, _, s) -> s
+    | None -> miss := true; [] in
+  let aopen n c =
+    match List.find_opt (fun (a, _, s) -> a = n && s = c) tbl with
+    | Some (_, p, _) -> Some p
+    | None -> None in
+  (seal, aopen, miss)
+
+let miss_msg = "DIFF seal-table-miss: the model sealed a (nonce, plaintext) pair the driver did not, i.e. serializer, nonce handling or the empty-input short cut differ"
 
 let f _id vs =
   match vs with
   | [I "1"; data; enc; dok; dec] ->
     let d = as_cbytes data in
+    let m_enc = b64_encode d in
+    let m_dec = b64_decode m_enc in
+    let m_ok = bytes_ok d in
+    dump _id (nh m_enc @ n_opt m_dec @ n_bool m_ok);
     check [
-      ("Base64.Encode", false, hx (b64_encode d), hs (as_bytes enc));
-      ("Base64.Decode(Encode)", true, opt_bytes (b64_decode (b64_encode d)), impl_opt dok dec);
-      ("bytes_ok", false, b2s (bytes_ok d), "1");
+      ("Base64.Encode", false, hx m_enc, hs (as_bytes enc));
+      ("Base64.Decode(Encode)", true, opt_bytes m_dec, impl_opt dok dec);
+      ("bytes_ok", false, b2s m_ok, "1");
     ]
   | [I "2"; s; ok; dec] ->
-    check [("Base64.Decode", false, opt_bytes (b64_decode (as_cbytes s)), impl_opt ok dec)]
+    let m = b64_decode (as_cbytes s) in
+    dump _id (n_opt m);
+    check [("Base64.Decode", false, opt_bytes m, impl_opt ok dec)]
   | [I "3"; u; t; sok; ser; dok; du; dt] ->
     let u' = as_cbytes u and t' = as_cbytes t in
     let m_ser = serialize u' t' in
-    let m_des = match m_ser with
-      | None -> "0/"
-      | Some tok -> (match deserialize tok with
-          | None -> "0/"
-          | Some (a, b) -> "1/" ^ hx a ^ "/" ^ hx b) in
-    let i_des = if as_bool dok then "1/" ^ hs (as_bytes du) ^ "/" ^ hs (as_bytes dt) else "0/" in
+    let m_des = match m_ser with None -> None | Some tok -> deserialize tok in
+    dump _id (n_opt m_ser @ n_pair m_des);
     check [
       ("Serialize", false, opt_bytes m_ser, impl_opt sok ser);
-      ("Deserialize(Serialize)", false, m_des, i_des);
+      ("Deserialize(Serialize)", false, pair_str m_des, impl_pair dok du dt);
     ]
   | [I "4"; tok; ok; u; t] ->
-    let m = match deserialize (as_cbytes tok) with
-      | None -> "0/" | Some (a, b) -> "1/" ^ hx a ^ "/" ^ hx b in
-    let i = if as_bool ok then "1/" ^ hs (as_bytes u) ^ "/" ^ hs (as_bytes t) else "0/" in
-    check [("Deserialize", false, m, i)]
+    let m = deserialize (as_cbytes tok) in
+    dump _id (n_pair m);
+    check [("Deserialize", false, pair_str m, impl_pair ok u t)]
   | [I "5"; cfg; table; issued; presented] ->
     let e = encoder_of_cfg (as_int cfg) in
-    let tbl = List.map (fun v -> match as_list v with
-        | [n; p; s] -> (as_bytes n, as_bytes p, as_bytes s)
-        | _ -> failwith "table entry") (as_list table) in
-    let seal n m =
-      let n' = coq_to_bytes n and m' = coq_to_bytes m in
-      match List.find_opt (fun (a, b, _) -> a = n' && b = m') tbl with
-      | Some (_, _, s) -> bytes_to_coq s
-      | None -> raise Seal_miss in
-    let aopen n c =
-      let n' = coq_to_bytes n and c' = coq_to_bytes c in
-      match List.find_opt (fun (a, _, s) -> a = n' && s = c') tbl with
-      | Some (_, p, _) -> Some (bytes_to_coq p)
-      | None -> None in
-    (try
-      let fi = List.concat (List.mapi (fun k v -> match as_list v with
-          | [nonce; u; t; tokE; tokRC; tokR] ->
-            let n = as_cbytes nonce and u' = as_cbytes u and t' = as_cbytes t in
-            let tag s = Printf.sprintf "issued[%d].%s" k s in
-            let m_tokE = match serialize u' t' with
-              | None -> ""
-              | Some tok -> hx (enc_encode seal e n tok) in
-            [ (tag "Encode(Serialize)", false, m_tokE, hs (as_bytes tokE));
-              (tag "ReadChanges.token", false, hx (issue_token seal e n u' t'), hs (as_bytes tokRC));
-              (tag "Read.token", false, hx (issue_token seal e n u' []), hs (as_bytes tokR)) ]
-          | _ -> failwith "issued entry") (as_list issued)) in
-      let fp = List.concat (List.mapi (fun k v -> match as_list v with
-          | [s; ty; dok; dec; rco; rcu; ro; ru] ->
-            let s' = as_cbytes s and ty' = as_cbytes ty in
-            let tag x = Printf.sprintf "presented[%d:%s].%s" k (hs (as_bytes s)) x in
-            let impl_res o u = let o = as_int o in
-              if o = 3 then "3/" ^ hs (as_bytes u) else string_of_int o ^ "/" in
-            let m_rc = read_changes_resume aopen e ty' s' and m_r = read_resume aopen e s' in
-            (* the implementation resolving a string to a position that the ideal AEAD does not
-               resolve to is the property itself *)
-            let forged m i = (match m with RFrom _ -> false | _ -> true) && String.length i > 0 && i.[0] = '3' in
-            let i_rc = impl_res rco rcu and i_r = impl_res ro ru in
-            [ (tag "Decode", false, opt_bytes (enc_decode aopen e s'), impl_opt dok dec);
-              (tag "ReadChanges.resume", forged m_rc i_rc, resume_str m_rc, i_rc);
-              (tag "Read.resume", forged m_r i_r, resume_str m_r, i_r) ]
-          | _ -> failwith "presented entry") (as_list presented)) in
+    let (seal, aopen, miss) = ideal_aead table in
+    (* model values first *)
+    let mi = List.map (fun v -> match as_list v with
+        | [nonce; u; t; tokE; tokRC; tokR] ->
+          let n = as_cbytes nonce and u' = as_cbytes u and t' = as_cbytes t in
+          let m_tokE = match serialize u' t' with
+            | None -> None
+            | Some tok -> Some (enc_encode seal e n tok) in
+          let m_rc = issue_token seal e n u' t' and m_r = issue_token seal e n u' [] in
+          ((m_tokE, m_rc, m_r), (tokE, tokRC, tokR))
+        | _ -> failwith "issued entry") (as_list issued) in
+    let mp = List.map (fun v -> match as_list v with
+        | [s; ty; dok; dec; rco; rcu; ro; ru] ->
+          let s' = as_cbytes s and ty' = as_cbytes ty in
+          let m_dec = enc_decode aopen e s' in
+          let m_rc = read_changes_resume aopen e ty' s' and m_r = read_resume aopen e s' in
+          ((m_dec, m_rc, m_r), (s, dok, dec, rco, rcu, ro, ru))
+        | _ -> failwith "presented entry") (as_list presented) in
+    dump _id (List.concat (List.map (fun ((a, b, c), _) -> n_opt a @ nh b @ nh c) mi)
+              @ List.concat (List.map (fun ((a, b, c), _) -> n_opt a @ n_res b @ n_res c) mp));
+    if !miss then miss_msg else begin
+      let fi = List.concat (List.mapi (fun k ((m_tokE, m_rc, m_r), (tokE, tokRC, tokR)) ->
+          let tag s = Printf.sprintf "issued[%d].%s" k s in
+          [ (tag "Encode(Serialize)", false, (match m_tokE with None -> "" | Some l -> hx l), hs (as_bytes tokE));
+            (tag "ReadChanges.token", false, hx m_rc, hs (as_bytes tokRC));
+            (tag "Read.token", false, hx m_r, hs (as_bytes tokR)) ]) mi) in
+      let fp = List.concat (List.mapi (fun k ((m_dec, m_rc, m_r), (s, dok, dec, rco, rcu, ro, ru)) ->
+          let tag x = Printf.sprintf "presented[%d:%s].%s" k (hs (as_bytes s)) x in
+          let impl_res o u = let o = as_int o in
+            if o = 3 then "3/" ^ hs (as_bytes u) else string_of_int o ^ "/" in
+          (* the implementation resolving a string to a position that the ideal AEAD does not
+             resolve to is the property itself *)
+          let forged m i = (match m with RFrom _ -> false | _ -> true) && String.length i > 0 && i.[0] = '3' in
+          let i_rc = impl_res rco rcu and i_r = impl_res ro ru in
+          [ (tag "Decode", false, opt_bytes m_dec, impl_opt dok dec);
+            (tag "ReadChanges.resume", forged m_rc i_rc, resume_str m_rc, i_rc);
+            (tag "Read.resume", forged m_r i_r, resume_str m_r, i_r) ]) mp) in
       check (fi @ fp)
-    with Seal_miss -> "DIFF seal-table-miss: the model sealed a (nonce, plaintext) pair the driver did not, i.e. serializer or nonce handling differ")
+    end
   | [I "6"; cfg; table; nonce; data; tok; dok; dec] ->
     let e = encoder_of_cfg (as_int cfg) in
-    let tbl = List.map (fun v -> match as_list v with
-        | [n; p; s] -> (as_bytes n, as_bytes p, as_bytes s)
-        | _ -> failwith "table entry") (as_list table) in
-    let seal n m =
-      let n' = coq_to_bytes n and m' = coq_to_bytes m in
-      match List.find_opt (fun (a, b, _) -> a = n' && b = m') tbl with
-      | Some (_, _, s) -> bytes_to_coq s
-      | None -> raise Seal_miss in
-    let aopen n c =
-      let n' = coq_to_bytes n and c' = coq_to_bytes c in
-      match List.find_opt (fun (a, _, s) -> a = n' && s = c') tbl with
-      | Some (_, p, _) -> Some (bytes_to_coq p)
-      | None -> None in
-    (try
-      let m_tok = enc_encode seal e (as_cbytes nonce) (as_cbytes data) in
+    let (seal, aopen, miss) = ideal_aead table in
+    let m_tok = enc_encode seal e (as_cbytes nonce) (as_cbytes data) in
+    let m_dec = enc_decode aopen e m_tok in
+    dump _id (nh m_tok @ n_opt m_dec);
+    if !miss then miss_msg else
       check [
         ("Encode", false, hx m_tok, hs (as_bytes tok));
-        ("Decode(Encode)", true, opt_bytes (enc_decode aopen e m_tok), impl_opt dok dec);
+        ("Decode(Encode)", true, opt_bytes m_dec, impl_opt dok dec);
       ]
-    with Seal_miss -> "DIFF seal-table-miss: the model sealed a (nonce, plaintext) pair the driver did not")
   | _ -> "DIFF malformed-record"
 
 let () = run_oracle f
